@@ -110,10 +110,11 @@ def check_reshuffled(kind, n, fail, spec, seed_):
                                                           f'({exc!r})\nexpected a permutation of {want}')
 
 
-def three_way(node, mm, r):
+def three_way(node, mm, r, as_int=False):
     """filter(p) / filter(p, lazy=False) / map(raise unless p).catch() select the same examples."""
-    lazy = {'op': 'filter', 'm': mm, 'r': r, 'lazy': True, 'in': node}
-    eager = {'op': 'filter', 'm': mm, 'r': r, 'lazy': False, 'in': node}
+    # as_int: the predicate answers with a truthy / falsy int (0, 1, 2, ...) instead of a bool
+    lazy = {'op': 'filter', 'm': mm, 'r': r, 'lazy': True, 'int': as_int, 'in': node}
+    eager = {'op': 'filter', 'm': mm, 'r': r, 'lazy': False, 'int': as_int, 'in': node}
     viacatch = {'op': 'catch', 'exc': None, 'in': {'op': 'predraise', 'm': mm, 'r': r, 'in': node}}
     outs = []
     for prog in (lazy, eager, viacatch):
@@ -136,7 +137,7 @@ def replay(case):
         check_reshuffled(case['kind'], case['n'], {int(k): v for k, v in case['fail'].items()}, 'VErrA',
                          3 + len(case['fail']))
     elif case.get('mode') == 'three_way':
-        three_way(case['ast'], case['m'], case['r'])
+        three_way(case['ast'], case['m'], case['r'], case.get('int', False))
     else:
         check_program(case['ast'])
 
@@ -173,12 +174,12 @@ def st_random(draw):
         node = {'op': 'catch', 'exc': 'VErrA', 'in': node['in']}
     mode = draw(st.sampled_from(['catch', 'catch', 'three_way']))
     if mode == 'three_way':
-        mm = draw(st.integers(2, 3))
+        mm = draw(st.integers(2, 4))
         b = base
         mb = ev(b)
         if mb.has_raise or mb.taint or mb.int_taint or mb.iter_taint or not (mb.indexable and mb.sized):
             b = draw(gen.st_source(ctx))
-        return {'mode': 'three_way', 'ast': b, 'm': mm, 'r': draw(st.integers(0, mm - 1))}
+        return {'mode': 'three_way', 'ast': b, 'm': mm, 'r': draw(st.integers(0, mm - 1)), 'int': draw(st.booleans())}
     return {'mode': 'catch', 'ast': node}
 
 
@@ -227,10 +228,12 @@ def run_shard(tier, idx, nshards, rec, known):
 
     def hyp(case):
         if case['mode'] == 'three_way':
-            three_way(case['ast'], case['m'], case['r'])
+            three_way(case['ast'], case['m'], case['r'], case.get('int', False))
             m = ev(case['ast'])
             rec.case({'mode': 'three_way', 'program': progs.show(case['ast']), 'm': case['m'], 'r': case['r'],
-                      'ast': case['ast']}, m.n >= 2, ['three-way'], size=progs.size(case['ast']))
+                      'int': case.get('int', False), 'ast': case['ast']}, m.n >= 2,
+                     ['three-way', 'predicate:int' if case.get('int') else 'predicate:bool'],
+                     size=progs.size(case['ast']))
         else:
             m = check_program(case['ast'])
             inner = ev(case['ast']['in'])
